@@ -108,6 +108,16 @@ class _Fn:
                 self.assigns.append((self._names([n.target]), n.value, n))
             elif isinstance(n, ast.Return) and n.value is not None:
                 self.returns.append(n)
+        # a name bound only as the variable of one loop / comprehension stands for each item of what is iterated
+        self.iter_of = {}
+        n_bind = {}
+        for n in ast.walk(f.node):
+            if isinstance(n, (ast.comprehension, ast.For)) and isinstance(n.target, ast.Name):
+                self.iter_of[n.target.id] = n.iter
+                n_bind[n.target.id] = n_bind.get(n.target.id, 0) + 1
+        for name_ in list(self.iter_of):
+            if n_bind[name_] != 1 or any(name_ in names for names, _, _ in self.assigns) or name_ in (f.params + f.kwonly):
+                del self.iter_of[name_]
         self.single = {}
         for names, val, st in self.assigns:
             if isinstance(st, ast.Assign) and len(st.targets) == 1 and isinstance(st.targets[0], ast.Name):
@@ -177,6 +187,10 @@ class _Fn:
             return node, "axis-param"
         if node.id in self.single and len(self.single[node.id]) == 1 and node.id not in self.taint:
             return self.resolve(self.single[node.id][0], depth + 1)
+        if node.id in self.iter_of and node.id not in self.taint:
+            it_, tag_ = self.resolve(self.iter_of[node.id], depth + 1)
+            if isinstance(it_, (ast.Tuple, ast.List)) and tag_ is None:
+                return it_, None            # every item of a literal sequence: judged like the sequence itself
         ns = self.ix.namespace(self.f.module.name)
         b = ns.get(node.id)
         if b is not None and b.kind == "value" and isinstance(b.target, ast.AST):
